@@ -147,6 +147,95 @@ fn resend_family(g: &mut G, ctx: &RunCtx) -> RunReport {
     }
 }
 
+/// A streamed (chunked) body whose pieces end exactly at, just before or just after the edge of the 8 KiB
+/// buffer the request is written through: the head of the same request is measured first (one exchange with
+/// an empty streamed body), then the first write is sized so that head + size line + data fill the buffer
+/// to within 0..3 octets - where a chunk's closing CRLF, or its data, no longer fits.
+fn buffer_edge_family(g: &mut G, ctx: &RunCtx) -> RunReport {
+    use reqgen::{BodySpec, CustomSpec, WOp};
+    let mut plan: ReqPlan = reqgen::gen_request(g, 0);
+    // keep the head well inside one buffer
+    plan.headers.retain(|(_, v, _)| v.len() < 600);
+    plan.body = BodySpec::Custom(CustomSpec { chunked: true, ops: vec![] });
+    let mut script = Script::default();
+    script.acts.push(Act::Send(b"HTTP/1.1 200 OK\r\nContent-Length: 2\r\n\r\nok".to_vec()));
+    script.acts.push(Act::Fin);
+    let url = plan.url(&format!("http://{}", bodyx::HOST_IP));
+    let quiet = ConnFaults { window: 64 * 1024, ..Default::default() };
+    let probe = bodyx::run_origin(&script, &quiet, ctx, || {
+        let rb = plan.new_builder(&url);
+        plan.send(rb).map(|_| ()).map_err(|e| err_kind(&e))
+    });
+    let mut stats = Stats::default();
+    stats.absorb(&probe.history);
+    let head_len = probe.history.conns.first().map(|c| c.client_bytes()).and_then(|b| b.windows(4).position(|w| w == b"\r\n\r\n").map(|p| p + 4));
+    let Some(head_len) = head_len.filter(|h| *h < 7000) else {
+        return RunReport { verdict: Verdict::Pass, shape: "buffer-edge/unmeasured".into(), nontrivial: false, stats, sched_tape: probe.sched_tape, describe: String::new() };
+    };
+    // optional small first chunk, then the aligned one
+    let mut ops: Vec<WOp> = Vec::new();
+    let mut used = head_len;
+    if g.chance(1, 3) {
+        let w1 = g.range(1, 300) as usize;
+        used += format!("{:x}", w1).len() + 2 + w1 + 2;
+        ops.push(WOp::Write(crate::gen::gen_bytes(w1, 0, 7)));
+    }
+    let spare_after = g.below(4) as usize; // octets left in the buffer after size line and data
+    let mut l = 8192 - spare_after - used - 2 - 3; // first guess: three hex digits
+    while used + format!("{:x}", l).len() + 2 + l < 8192 - spare_after {
+        l += 1;
+    }
+    while used + format!("{:x}", l).len() + 2 + l > 8192 - spare_after {
+        l -= 1;
+    }
+    let aligned = crate::gen::gen_bytes(l, 1, 11);
+    ops.push(if g.chance(1, 2) { WOp::Write(aligned) } else { WOp::WriteAll(aligned) });
+    for _ in 0..g.below(3) {
+        let n = *g.pick(&[0usize, 1, 5, 8190, 8192, 100]);
+        ops.push(match g.below(3) {
+            0 => WOp::Flush,
+            _ => WOp::Write(crate::gen::gen_bytes(n, 2, 13)),
+        });
+    }
+    plan.body = BodySpec::Custom(CustomSpec { chunked: true, ops });
+    g.probe("streamed-body-piece-ends-at-the-edge-of-the-write-buffer");
+    let (faults, fname) = gen_write_faults(g);
+    let ran = bodyx::run_origin(&script, &faults, ctx, || {
+        let rb = plan.new_builder(&url);
+        match plan.send(rb) {
+            Ok(resp) => resp.bytes().map(|_| ()).map_err(|e| format!("body:{}", err_kind(&e))),
+            Err(e) => Err(err_kind(&e)),
+        }
+    });
+    stats.absorb(&ran.history);
+    let verdict = match &ran.observed {
+        None => violation("hang", "run torn down"),
+        Some(Err(m)) => violation(format!("panic:{}:{}", crate::props::c02::panic_site(m), plan.body_name()), m.clone()),
+        Some(Ok(res)) => {
+            let bytes = ran.history.conns.first().map(|c| c.client_bytes()).unwrap_or_default();
+            match parse_request(&bytes) {
+                ReqParse::Incomplete => violation("buffer-edge:request-incomplete", format!("the {} bytes written do not form a complete request (send result {:?}; head {} bytes, {} octets spare after the aligned chunk's data)", bytes.len(), res, head_len, spare_after)),
+                ReqParse::Malformed(m) => violation("buffer-edge:request-malformed", format!("{} (send result {:?}; head {} bytes, {} octets spare after the aligned chunk's data)", m, res, head_len, spare_after)),
+                ReqParse::Complete(r) => match reqgen::check_request(&plan, &r, bytes.len() - r.total_len, None, true) {
+                    Err((c, m)) => violation(format!("buffer-edge:{}", c), m),
+                    Ok(()) => match res {
+                        Ok(()) => Verdict::Pass,
+                        Err(e) => violation(format!("send-failed:{}:{}", e, plan.body_name()), format!("send failed with {} although the peer answered a well-formed request", e)),
+                    },
+                },
+            }
+        }
+    };
+    RunReport {
+        verdict,
+        shape: format!("buffer-edge/spare={}/head={}/faults={}", spare_after, head_len / 64, fname),
+        nontrivial: true,
+        stats,
+        sched_tape: ran.sched_tape,
+        describe: if ctx.describe { format!("buffer-edge family: head {} bytes, aligned chunk leaves {} octets of the 8 KiB buffer; faults={}; url={:?}", head_len, spare_after, fname, url) } else { String::new() },
+    }
+}
+
 pub fn scenario(g: &mut G, ctx: &RunCtx) -> RunReport {
     if g.chance(1, 6) {
         g.probe("prepared-request-sent-again-after-failure");
@@ -154,6 +243,10 @@ pub fn scenario(g: &mut G, ctx: &RunCtx) -> RunReport {
     }
     let plan: ReqPlan = reqgen::gen_request(g, if ctx.thorough { 200_000 } else { 40_000 });
     let (faults, fname) = gen_write_faults(g);
+    // drawn after the plan of the main family: recorded tapes keep their meaning
+    if g.chance(1, 10) {
+        return buffer_edge_family(g, ctx);
+    }
     let mut script = Script::default();
     script.acts.push(Act::Send(b"HTTP/1.1 200 OK\r\nContent-Length: 2\r\n\r\nok".to_vec()));
     script.acts.push(Act::Fin);
